@@ -1,8 +1,21 @@
 import XmpModel.MixWindow
-/-! Driver for the C01 window correspondence: evaluates the model's `windowOk`
-and the hypotheses of `C01_window_forward` / `C01_window_reverse` on kernel calls
-recorded by harness/c01_window.c. -/
-open Xmp.MixWindow
+import XmpModel.VoicePos
+import XmpModel.Gen.MixerVoice
+/-! Driver for the C01 correspondence.
+
+* `w` lines (kernel calls recorded by harness/c01_window.c): evaluates the model's
+  `windowOk` and the hypotheses of `C01_window_forward` / `C01_window_reverse`.
+* `T/L/K/E` lines (exact voice states around the tick prologue and every iteration of
+  the segment loop) and `P/p A/a R/r Z/z` lines (voicepos, setpatch, reverse, release):
+  recomputes every observed transition with XmpModel.VoicePos (`tickStart`, `segStep`,
+  `voicepos`, `setpatch`, `reverse`, `release`, `q0Of`, `stepfixOf`, `samplesOf`) and
+  evaluates `voiceInv`, `smpOk` and `callOk` on every observed loop-top state.
+
+Positions are exact dyadic rationals over `D = 2^62`; the C code rounds to double after
+every operation, so positions are compared with tolerance `2^-18` frame and a transition
+that only matches with `samples ± 1` or a position nudged by the tolerance is counted as a
+floating-point divergence (`fp`), not as a mismatch. -/
+open Xmp.MixWindow Xmp.VoicePos
 
 def hypForward (D pn sn q0 stepfix e len r : Int) (samples : Nat) : Bool :=
   decide (0 < D) && decide (0 ≤ sn) && decide (0 ≤ q0) && decide (0 ≤ stepfix) &&
@@ -14,29 +27,157 @@ def hypReverse (D pn sn q0 stepfix st len : Int) (samples : Nat) : Bool :=
   decide (S * pn - D < q0 * D) && decide (-(S * sn) ≤ stepfix * D) && decide (q0 < (len + 2) * S) &&
   decide (((samples : Int) - 1) * sn < pn - st * D)
 
-structure WAcc where
+def DD : Int := 4611686018427387904      -- 2^62
+def tol : Int := 17592186044416          -- 2^44 = D / 2^18
+
+structure DAcc where
   total : Nat := 0
   bad : Nat := 0
   hyp : Nat := 0
   nohyp : Nat := 0
   rev : Nat := 0
   firstBad : List String := []
+  -- voice states
+  tickOk : Nat := 0
+  tickBad : Nat := 0
+  stepOk : Nat := 0
+  stepFp : Nat := 0
+  stepBad : Nat := 0
+  stepRev : Nat := 0
+  stepRepos : Nat := 0
+  stepSwap : Nat := 0
+  endOk : Nat := 0
+  endFp : Nat := 0
+  endBad : Nat := 0
+  endSkip : Nat := 0
+  invOk : Nat := 0
+  invTol : Nat := 0
+  invBad : Nat := 0
+  smpBad : Nat := 0
+  noData : Nat := 0
+  callOkN : Nat := 0
+  callBad : Nat := 0
+  kOk : Nat := 0
+  kFp : Nat := 0
+  kBad : Nat := 0
+  apiOk : Nat := 0
+  apiBad : Nat := 0
+  apiSkip : Nat := 0
+  msgs : List String := []
+  -- per-voice tick context: voc ↦ (env, last loop-top state, size, usmp, ticksize)
+  ctx : List (Nat × Env × Option (Voice × Nat × Nat)) := []
+  pending : Option (String × Voice × Env × Bool × Int × Option Smp) := none   -- API pre line
 
-partial def loop (h : IO.FS.Stream) (a : WAcc) : IO WAcc := do
-  let line ← h.getLine
-  if line.isEmpty then return a
-  let ws := line.trimAscii.toString.splitOn " "
+def DAcc.msg (a : DAcc) (m : String) : DAcc :=
+  if a.msgs.length < 12 then { a with msgs := a.msgs ++ [(m.replace "\n" " ").replace "  " " "] } else a
+
+def tI (s : String) : Int := s.toInt?.getD 0
+def tB (s : String) : Bool := s == "1"
+
+/-- parses `S valid len lps lpe sus sue loop lbidir lfull sloop sbidir ismod synth hasdata` (15 tokens) -/
+def parseSmp (t : List String) : Option (Bool × Smp) :=
+  match t with
+  | "S" :: valid :: len :: lps :: lpe :: sus :: sue :: loop :: lb :: lf :: sl :: sb :: im :: sy :: hd :: _ =>
+    some (tB valid, { len := tI len, lps := tI lps, lpe := tI lpe, sus := tI sus, sue := tI sue, loop := tB loop,
+                      lbidir := tB lb, lfull := tB lf, sloop := tB sl, sbidir := tB sb, isMod := tB im, synth := tB sy,
+                      hasData := tB hd })
+  | _ => none
+
+/-- parses `V hi lo start end release sloopf rev bidir queued paused active chn S…` (13 + 15 tokens);
+returns the voice, whether its sample index was valid, and the channel -/
+def parseVoice (t : List String) : Option (Voice × Bool × Int) :=
+  match t with
+  | "V" :: hi :: lo :: st :: en :: rel :: sl :: rev :: bd :: qu :: pa :: ac :: chn :: rest =>
+    match parseSmp rest with
+    | some (valid, s) =>
+      some ({ smp := s, pos := tI hi * DD + tI lo, start := tI st, end_ := tI en, release := tB rel, sloopf := tB sl,
+              rev := tB rev, bidir := tB bd, queued := tB qu, paused := tB pa, active := tB ac }, valid, tI chn)
+    | none => none
+  | _ => none
+
+def approx (a b : Int) : Bool := (a - b).natAbs ≤ tol.natAbs
+
+/-- model state vs observed state: everything exact except the position -/
+def sameVoice (m o : Voice) : Bool :=
+  m.smp == o.smp && m.start == o.start && m.end_ == o.end_ && m.release == o.release && m.sloopf == o.sloopf &&
+  m.rev == o.rev && m.bidir == o.bidir && m.queued == o.queued && m.paused == o.paused && m.active == o.active &&
+  approx m.pos o.pos
+
+def ctxGet (a : DAcc) (voc : Nat) : Option (Env × Option (Voice × Nat × Nat)) :=
+  (a.ctx.find? (fun x => x.1 == voc)).map (fun x => x.2)
+
+def ctxSet (a : DAcc) (voc : Nat) (e : Env) (s : Option (Voice × Nat × Nat)) : DAcc :=
+  { a with ctx := (voc, e, s) :: a.ctx.filter (fun x => x.1 != voc) }
+
+def ctxDel (a : DAcc) (voc : Nat) : DAcc := { a with ctx := a.ctx.filter (fun x => x.1 != voc) }
+
+/-- candidate sample counts / nudged positions used to classify floating-point divergences -/
+def altSteps (env : Env) (v : Voice) (size usmp : Nat) : List Step :=
+  let nudges : List Int := [0, tol, -tol]
+  nudges.foldr (fun d acc =>
+    let v' := { v with pos := v.pos + d }
+    let base := samplesOf env v' size
+    let ns : List (Option Nat) := match base with
+      | none => [none, some 1]
+      | some n => [some n, some (n - 1), some (n + 1), none]
+    ns.map (fun n => segStepWith env v' size usmp n) ++ acc) []
+
+def invTolOk (env : Env) (v : Voice) : Bool :=
+  voiceInvD env { v with pos := v.pos + tol } || voiceInvD env { v with pos := v.pos - tol }
+
+def observeState (a : DAcc) (env : Env) (v : Voice) (size : Nat) (line : String) : DAcc :=
+  -- SmpOk is claimed (and needed) only for samples that have data
+  let a := if !v.smp.hasData then { a with noData := a.noData + 1 } else a
+  let a := if !v.smp.hasData || smpOk v.smp then a
+           else (a.msg ("smpOk fails: " ++ line)) |> fun a => { a with smpBad := a.smpBad + 1 }
+  let a := if voiceInvD env v then { a with invOk := a.invOk + 1 }
+           else if invTolOk env v then { a with invTol := a.invTol + 1 }
+           else ({ a with invBad := a.invBad + 1 }).msg ("voiceInv fails: " ++ line)
+  -- the window of the call the model predicts from this state (interp 2 = widest taps)
+  -- frames the loop wrap-around patching touches (C01_wraparound_window), with the generated LOOP_PROLOGUE/EPILOGUE
+  let pro := Xmp.Gen.MixerVoice.loopPrologue
+  let epi := Xmp.Gen.MixerVoice.loopEpilogue
+  let wrapOk := !v.smp.loop || (decide (-1 ≤ wrapLo v pro epi) && decide (wrapHi v pro epi ≤ v.smp.len + 3))
+  if callOk env 2 v size && callOk env 0 v size && wrapOk then { a with callOkN := a.callOkN + 1 }
+  else ({ a with callBad := a.callBad + 1 }).msg ("callOk / wrap-around window fails: " ++ line)
+
+def handleStep (a : DAcc) (env : Env) (prev : Voice × Nat × Nat) (next : Voice) (nsize nusmp : Nat) (line : String) : DAcc :=
+  let (v, size, usmp) := prev
+  let a := if v.rev then { a with stepRev := a.stepRev + 1 } else a
+  let a := if next.smp == v.smp && !v.queued then { a with stepRepos := a.stepRepos + 1 } else a
+  let a := if v.queued then { a with stepSwap := a.stepSwap + 1 } else a
+  let good (s : Step) : Bool := match s with
+    | .cont v' s' u' => sameVoice v' next && s' == nsize && u' == nusmp
+    | _ => false
+  if good (segStep env v size usmp) then { a with stepOk := a.stepOk + 1 }
+  else if (altSteps env v size usmp).any good then { a with stepFp := a.stepFp + 1 }
+  else ({ a with stepBad := a.stepBad + 1 }).msg
+    ("segStep mismatch: model " ++ reprStr (segStep env v size usmp) ++ " observed: " ++ line)
+
+def handleEnd (a : DAcc) (env : Env) (prev : Voice × Nat × Nat) (fin : Voice) (line : String) : DAcc :=
+  let (v, size, usmp) := prev
+  let good (s : Step) : Bool := match s with
+    | .done v' => sameVoice v' fin
+    | .brk v' => sameVoice v' fin
+    | _ => false
+  if good (segStep env v size usmp) then { a with endOk := a.endOk + 1 }
+  else if (altSteps env v size usmp).any good then { a with endFp := a.endFp + 1 }
+  else ({ a with endBad := a.endBad + 1 }).msg
+    ("loop exit mismatch: model " ++ reprStr (segStep env v size usmp) ++ " observed: " ++ line)
+
+def handleLine (a : DAcc) (line : String) : DAcc :=
+  let ws := line.splitOn " "
   match ws with
   | ["w", q0, step, count, interp, len, rev, pn, sn, bound, d] =>
-    let q0 := q0.toInt?.getD 0
-    let step := step.toInt?.getD 0
+    let q0 := tI q0
+    let step := tI step
     let count := count.toNat?.getD 0
     let interp := interp.toNat?.getD 1
-    let len := len.toInt?.getD 0
+    let len := tI len
     let rev := rev == "1"
-    let pn := pn.toInt?.getD 0
-    let sn := sn.toInt?.getD 0
-    let bound := bound.toInt?.getD 0
+    let pn := tI pn
+    let sn := tI sn
+    let bound := tI bound
     let d := d.toInt?.getD 1
     let ok := windowOk q0 step count interp len
     -- the nearest-neighbour rounding offset is already inside q0: r = 2^15 there, else 0
@@ -45,11 +186,145 @@ partial def loop (h : IO.FS.Stream) (a : WAcc) : IO WAcc := do
                else hypForward d pn sn q0 step bound len r count
     let a := { a with total := a.total + 1, rev := a.rev + (if rev then 1 else 0),
                       hyp := a.hyp + (if hyp then 1 else 0), nohyp := a.nohyp + (if hyp then 0 else 1) }
-    if ok then loop h a
-    else loop h { a with bad := a.bad + 1, firstBad := if a.firstBad.length < 5 then a.firstBad ++ [line.trimAscii.toString] else a.firstBad }
-  | _ => loop h a
+    if ok then a
+    else { a with bad := a.bad + 1, firstBad := if a.firstBad.length < 5 then a.firstBad ++ [line] else a.firstBad }
+  | "T" :: voc :: rest =>
+    -- T voc <V 28> step_hi step_lo ticksize adj split Q <S 15>
+    match parseVoice rest with
+    | some (pre, valid, _) =>
+      match rest.drop 28 with
+      | shi :: slo :: _ts :: adj :: split :: "Q" :: qrest =>
+        let q := match parseSmp qrest with
+          | some (true, s) => some s
+          | _ => none
+        let env : Env := { D := DD, sn := tI shi * DD + tI slo, adj := tI adj, split := tB split, qsmp := q,
+                           clampHi := Xmp.Gen.MixerVoice.tickClampHi }
+        let a := ctxSet a (voc.toNat?.getD 0) env none
+        if valid then
+          -- remember the pre state: the first L line is compared with tickStart
+          { a with pending := some ("T", pre, env, false, 0, none) }
+        else { a with pending := none }
+      | _ => a.msg ("unparsed: " ++ line)
+    | none => a.msg ("unparsed: " ++ line)
+  | "L" :: voc :: rest =>
+    let vocn := voc.toNat?.getD 0
+    match parseVoice rest, ctxGet a vocn with
+    | some (v, _, _), some (env, prev) =>
+      match rest.drop 28 with
+      | [size, usmp] =>
+        let size := size.toNat?.getD 0
+        let usmp := usmp.toNat?.getD 0
+        let a := observeState a env v size line
+        let a := match prev with
+          | some p => handleStep a env p v size usmp line
+          | none =>
+            match a.pending with
+            | some ("T", pre, _, _, _, _) =>
+              let a := { a with pending := none }
+              match tickStart env pre with
+              | some w =>
+                if sameVoice w v then { a with tickOk := a.tickOk + 1 }
+                else ({ a with tickBad := a.tickBad + 1 }).msg ("tickStart mismatch: model " ++ reprStr w ++ " observed: " ++ line)
+              | none => ({ a with tickBad := a.tickBad + 1 }).msg ("tickStart = none but the loop ran: " ++ line)
+            | _ => a
+        ctxSet a vocn env (some (v, size, usmp))
+      | _ => a.msg ("unparsed: " ++ line)
+    | _, _ => a
+  | ["K", voc, q0, stepfix, count, interp] =>
+    match ctxGet a (voc.toNat?.getD 0) with
+    | some (env, some (v, size, _)) =>
+      let interp := interp.toNat?.getD 1
+      let n := count.toNat?.getD 0
+      let qok := q0Of env v interp == tI q0 && stepfixOf env v == tI stepfix
+      match samplesOf env v size with
+      | some m =>
+        if qok && m == n then { a with kOk := a.kOk + 1 }
+        else if qok && (m == n + 1 || m + 1 == n) then { a with kFp := a.kFp + 1 }
+        else ({ a with kBad := a.kBad + 1 }).msg
+          s!"kernel call mismatch: model q0={q0Of env v interp} stepfix={stepfixOf env v} samples={m} observed: {line}"
+      | none =>
+        -- the model says "already at the end" but the code mixed: only possible by rounding at the boundary
+        if n ≤ 1 then { a with kFp := a.kFp + 1 }
+        else ({ a with kBad := a.kBad + 1 }).msg ("kernel call where the model has samples = 0: " ++ line)
+    | _ => a
+  | "E" :: voc :: rest =>
+    let vocn := voc.toNat?.getD 0
+    match parseVoice rest, ctxGet a vocn with
+    | some (fin, _, chn), some (env, some prev) =>
+      let a := ctxDel a vocn
+      if chn < 0 then { a with endSkip := a.endSkip + 1 }      -- voice freed inside the tick (QUIRK_RSTCHN)
+      else handleEnd a env prev fin line
+    | _, _ => ctxDel a vocn
+  | "P" :: rest =>
+    -- P <V 28> pos_hi pos_lo adj same Q <S 15>
+    match parseVoice rest with
+    | some (pre, valid, _) =>
+      match rest.drop 28 with
+      | phi :: plo :: adj :: same :: "Q" :: qrest =>
+        let q := match parseSmp qrest with
+          | some (true, s) => some s
+          | _ => none
+        let env : Env := { D := DD, sn := 1, adj := tI adj, split := false, qsmp := q,
+                           clampHi := Xmp.Gen.MixerVoice.tickClampHi }
+        if valid then { a with pending := some ("P", pre, env, tB same, tI phi * DD + tI plo, none) }
+        else { a with pending := none, apiSkip := a.apiSkip + 1 }
+      | _ => a.msg ("unparsed: " ++ line)
+    | none => a.msg ("unparsed: " ++ line)
+  | "A" :: rest =>
+    -- A <V 28> adj N <S 15>
+    match parseVoice rest with
+    | some (pre, _, _) =>
+      match rest.drop 28 with
+      | adj :: "N" :: nrest =>
+        match parseSmp nrest with
+        | some (true, s) =>
+          let env : Env := { D := DD, sn := 1, adj := tI adj, split := false, qsmp := none,
+                             clampHi := Xmp.Gen.MixerVoice.tickClampHi }
+          { a with pending := some ("A", pre, env, false, 0, some s) }
+        | _ => { a with pending := none, apiSkip := a.apiSkip + 1 }
+      | _ => a.msg ("unparsed: " ++ line)
+    | none => a.msg ("unparsed: " ++ line)
+  | "R" :: flag :: rest =>
+    match parseVoice rest with
+    | some (pre, _, _) => { a with pending := some ("R", pre, default, tB flag, 0, none) }
+    | none => a.msg ("unparsed: " ++ line)
+  | "Z" :: flag :: rest =>
+    match parseVoice rest with
+    | some (pre, valid, _) =>
+      if valid then { a with pending := some ("Z", pre, default, tB flag, 0, none) }
+      else { a with pending := none, apiSkip := a.apiSkip + 1 }
+    | none => a.msg ("unparsed: " ++ line)
+  | kind :: rest =>
+    if kind == "p" || kind == "a" || kind == "r" || kind == "z" then
+      match parseVoice rest, a.pending with
+      | some (post, _, _), some (k, pre, env, flag, p, ns) =>
+        let a := { a with pending := none }
+        let model : Option Voice :=
+          if k == "P" && kind == "p" then some (voicepos env pre flag p)
+          else if k == "A" && kind == "a" then ns.map (fun s => setpatch env pre s)
+          else if k == "R" && kind == "r" then some (reverse pre flag)
+          else if k == "Z" && kind == "z" then some (release pre flag)
+          else none
+        match model with
+        | some m =>
+          if sameVoice m post then { a with apiOk := a.apiOk + 1 }
+          else ({ a with apiBad := a.apiBad + 1 }).msg (k ++ " mismatch: model " ++ reprStr m ++ " observed: " ++ line)
+        | none => a
+      | _, _ => a
+    else a
+  | _ => a
+
+partial def loop (h : IO.FS.Stream) (a : DAcc) : IO DAcc := do
+  let line ← h.getLine
+  if line.isEmpty then return a
+  loop h (handleLine a line.trimAscii.toString)
 
 def main : IO Unit := do
   let a ← loop (← IO.getStdin) {}
   IO.println s!"total {a.total} bad {a.bad} hyp {a.hyp} nohyp {a.nohyp} reverse {a.rev}"
+  IO.println (s!"voice tickOk {a.tickOk} tickBad {a.tickBad} stepOk {a.stepOk} stepFp {a.stepFp} stepBad {a.stepBad} " ++
+    s!"endOk {a.endOk} endFp {a.endFp} endBad {a.endBad} endSkip {a.endSkip} invOk {a.invOk} invTol {a.invTol} invBad {a.invBad} " ++
+    s!"smpBad {a.smpBad} callOk {a.callOkN} callBad {a.callBad} kOk {a.kOk} kFp {a.kFp} kBad {a.kBad} " ++
+    s!"apiOk {a.apiOk} apiBad {a.apiBad} apiSkip {a.apiSkip} stepRev {a.stepRev} stepRepos {a.stepRepos} stepSwap {a.stepSwap} noData {a.noData}")
   for l in a.firstBad do IO.println s!"badline {l}"
+  for l in a.msgs do IO.println s!"msg {l}"
